@@ -415,6 +415,15 @@ pub fn run_ident<E: EndianParse>(data: &[u8]) -> String {
     })
 }
 
+/// the stand-alone file-header parsers: `parse_ident` on the first 16 bytes, `FileHeader::parse_tail` on the rest
+pub fn run_ehdr<E: EndianParse>(data: &[u8]) -> String {
+    let (id, rest) = data.split_at(data.len().min(16));
+    match elf::file::parse_ident::<E>(id) {
+        Err(e) => format!("err {}", crate::show::show_err(&e)),
+        Ok(ident) => show_res(&elf::file::FileHeader::parse_tail(ident, rest), |h| show_ehdr(h)),
+    }
+}
+
 pub fn with_spec(spec: &str, f: &dyn Fn(&str) -> String) -> String {
     f(spec)
 }
@@ -480,6 +489,10 @@ pub fn run_line(line: &str) -> String {
         ["ident", sp, hexd] => {
             let d = unhex(hexd);
             dispatch_spec!(*sp, run_ident, &d)
+        }
+        ["ehdr", sp, hexd] => {
+            let d = unhex(hexd);
+            dispatch_spec!(*sp, run_ehdr, &d)
         }
         ["eidata", sp, v] => {
             let v = nat(v) as u8;
